@@ -181,7 +181,8 @@ def replay_magic(name, args=""):
 
 
 # ---------------------------------------------------------------------------- bounded stand-in: every registered name x 0..3 args x shapes
-SHAPES = ["", "word", "0", "7", "-3", "99999999999", "1.5", "1e9", "1e999999999", "a/b/c", "{{lc:X}}", "1e999", "nan", "-inf", "1" * 400]
+SHAPES = ["", "word", "0", "7", "-3", "99999999999", "1.5", "1e9", "1e999999999", "a/b/c", "{{lc:X}}", "1e999", "nan", "-inf", "1" * 400,
+          "../../../../x", "..", "./../y"]
 
 
 class _NotTerminated(BaseException):
@@ -268,6 +269,38 @@ def bounded(chk):
                        list(dedup.values()), cases[:3] + cases[-2:])
 
 
+def p6_rel2abs(chk):
+    """#rel2abs: for any relative path and base title the helper returns a string; it never raises (a '..' above the
+    root included)"""
+    import z3
+    from pyvc.interp import Explorer
+    from pyvc.values import SStr
+    MN = "mwlib/parser/templ/magic_nodes.py"
+    ex = Explorer()
+    fn = ex.function(MN, "_rel2abs")
+
+    def harness(I):
+        out = ex.run_function(I, fn, [I.fresh_str("rel"), I.fresh_str("base")])
+        I.oblige("no_raise" if out.returned else f"no_raise[{out.exc!r}]", out.returned)
+        if out.returned:
+            I.oblige("returns_a_string", isinstance(out.value, (str, SStr)))
+    chk.prove("magic_nodes._rel2abs", harness, ex, targets=[fn], replay=replay_rel2abs)
+
+
+def replay_rel2abs(model, obligation):
+    from mwlib.parser.templ import magic_nodes
+    import mwlib.parser.expander  # noqa: F401
+    for base in ("", "A", "Help:Foo/bar/baz", "/", "a//b", "A/"):
+        for rel in ("", ".", "..", "../", "../..", "../../../../quok", "./x", "/x", "x", "../../sibling", "/../..", "./../../..", "a/../../..", "//", "/./.", "..x", ".../y"):
+            try:
+                v = magic_nodes._rel2abs(rel, base)
+            except Exception as e:  # noqa: BLE001
+                return True, {"call": f"_rel2abs({rel!r}, {base!r})", "wikitext": "{{#rel2abs: %s | %s }}" % (rel, base), "raised": f"{type(e).__name__}: {e}"}, "rel2abs"
+            if not isinstance(v, str):
+                return True, {"call": f"_rel2abs({rel!r}, {base!r})", "returned": repr(v)}, "rel2abs"
+    return False, {"cases": 102}, None
+
+
 def bounded_limits(chk):
     """page texts at the expander's own limits: braces nested deeper than the interpreter's stack, arguments / names
     beyond the 256 KiB cap (directly, or built by a handful of argument-doubling templates)"""
@@ -299,6 +332,11 @@ def run(chk):
     p3_expr_resources(chk)
     p4_recursion_transparency(chk)
     p5_time_postprocessor(chk)
+    p6_rel2abs(chk)
+    # no regular expression of the expander backtracks exponentially (one parser-function call = work in proportion to
+    # its arguments): the decision procedure of C01, on the patterns compiled in parser/templ/
+    from contracts import c01
+    c01.p4_regex_ambiguity(chk, only=lambda where: where.startswith("parser/templ/") or where.startswith("parser/expander"))
     bounded(chk)
     bounded_limits(chk)
     chk.assumptions += [
